@@ -5,51 +5,85 @@
 (* A request is created, gets an address, is dialled; a failed dial counts  *)
 (* against its address (ban at BanAt failures) and asks for a new request;  *)
 (* a closed connection is replaced while fewer than Target are established. *)
-(* "Live" requests = dials in flight + established connections.             *)
+(* A request first ASKS for an address (GetNewAddress); when none can be    *)
+(* had it fails without an address: such failures are counted globally and  *)
+(* from GMax consecutive ones on the replacement is created by a retry      *)
+(* timer (one timer per failed request) instead of at once.                 *)
+(* "Live" requests = asking + timers pending + dials in flight + established.*)
 (***************************************************************************)
 EXTENDS Integers, Sequences, FiniteSets, TLC
 
-CONSTANTS Target, BanAt, Addrs, MaxFails, MaxDisc, Deviations
+CONSTANTS Target, BanAt, Addrs, MaxFails, MaxDisc, Deviations,
+          GMax,        \* maxFailedAttempts for address-less failures (25 in the code)
+          MaxDrought   \* how often the address source may dry up
 
 VARIABLES inflight,   \* request ids being dialled -> address
           conns,      \* established request ids -> address
           fails,      \* address -> consecutive failures
           bannedA,    \* banned addresses
-          nreq, nfail, ndisc, started
+          nreq, nfail, ndisc, started,
+          asking,     \* requests registered and waiting for GetNewAddress
+          waiting,    \* retry timers pending (each will create one request)
+          gfails,     \* consecutive failures of requests without an address
+          drought, ndrought   \* the address source is dry; how often that happened
 
-cmvars == <<inflight, conns, fails, bannedA, nreq, nfail, ndisc, started>>
+cmvars == <<inflight, conns, fails, bannedA, nreq, nfail, ndisc, started, asking, waiting, gfails, drought, ndrought>>
 
 Dom(f) == DOMAIN f
 CmInit == /\ inflight = [r \in {} |-> 0] /\ conns = [r \in {} |-> 0] /\ fails = [a \in Addrs |-> 0]
           /\ bannedA = {} /\ nreq = 0 /\ nfail = 0 /\ ndisc = 0 /\ started = FALSE
+          /\ asking = 0 /\ waiting = 0 /\ gfails = 0 /\ drought = FALSE /\ ndrought = 0
 
 \* a new request picks any address that is not banned (GetNewAddress)
 NewReq(fl, a) == (nreq + 1 :> a) @@ fl
 
 Start ==
   /\ ~started /\ started' = TRUE
-  /\ \E f \in [1 .. Target -> Addrs \ bannedA] : inflight' = [r \in 1 .. Target |-> f[r]]
-  /\ nreq' = Target
-  /\ UNCHANGED <<conns, fails, bannedA, nfail, ndisc>>
+  /\ asking' = Target
+  /\ UNCHANGED <<inflight, conns, fails, bannedA, nreq, nfail, ndisc, waiting, gfails, drought, ndrought>>
+
+\* a registered request obtains an address and is dialled
+GetAddr ==
+  /\ asking > 0 /\ ~drought
+  /\ \E b \in Addrs \ bannedA : inflight' = NewReq(inflight, b)
+  /\ nreq' = nreq + 1 /\ asking' = asking - 1
+  /\ UNCHANGED <<conns, fails, bannedA, nfail, ndisc, started, waiting, gfails, drought, ndrought>>
+
+\* no address can be had: the request fails without one; its replacement is created at once, or by a timer once
+\* GMax such failures happened in a row
+NoAddr ==
+  /\ asking > 0 /\ drought /\ nfail < MaxFails
+  /\ nfail' = nfail + 1 /\ gfails' = gfails + 1
+  /\ IF gfails + 1 >= GMax THEN asking' = asking - 1 /\ waiting' = (IF "TimersCoalesce" \in Deviations THEN 1 ELSE waiting + 1)   \* one timer PER failed request
+                           ELSE UNCHANGED <<asking, waiting>>
+  /\ UNCHANGED <<inflight, conns, fails, bannedA, nreq, ndisc, started, drought, ndrought>>
+
+TimerFires ==
+  /\ waiting > 0 /\ waiting' = waiting - 1 /\ asking' = asking + 1
+  /\ UNCHANGED <<inflight, conns, fails, bannedA, nreq, nfail, ndisc, started, gfails, drought, ndrought>>
+
+DroughtBegins == /\ ~drought /\ ndrought < MaxDrought /\ drought' = TRUE /\ ndrought' = ndrought + 1
+                 /\ UNCHANGED <<inflight, conns, fails, bannedA, nreq, nfail, ndisc, started, asking, waiting, gfails>>
+DroughtEnds   == /\ drought /\ drought' = FALSE
+                 /\ UNCHANGED <<inflight, conns, fails, bannedA, nreq, nfail, ndisc, started, asking, waiting, gfails, ndrought>>
 
 DialOK(r) ==
   /\ r \in Dom(inflight)
   /\ conns' = (r :> inflight[r]) @@ conns
   /\ inflight' = [x \in Dom(inflight) \ {r} |-> inflight[x]]
-  /\ fails' = [fails EXCEPT ![inflight[r]] = 0]
-  /\ UNCHANGED <<bannedA, nreq, nfail, ndisc, started>>
+  /\ fails' = [fails EXCEPT ![inflight[r]] = 0] /\ gfails' = 0          \* resetFailedAttempts
+  /\ UNCHANGED <<bannedA, nreq, nfail, ndisc, started, asking, waiting, drought, ndrought>>
 
 \* failure bookkeeping shared by a failed dial and by a closed connection that is to be replaced
 Failed(a, rest) ==
   LET n == fails[a] + 1 IN
   /\ fails' = [fails EXCEPT ![a] = n]
-  /\ IF n >= BanAt
-       THEN /\ bannedA' = bannedA \cup {a}
-            /\ IF "BanLosesSlot" \in Deviations
-                 THEN inflight' = rest /\ nreq' = nreq        \* as the code was: ban, and NO replacement request
-                 ELSE \E b \in Addrs \ (bannedA \cup {a}) : inflight' = NewReq(rest, b) /\ nreq' = nreq + 1
-       ELSE /\ bannedA' = bannedA
-            /\ \E b \in Addrs \ bannedA : inflight' = NewReq(rest, b) /\ nreq' = nreq + 1
+  /\ inflight' = rest /\ nreq' = nreq
+  /\ bannedA' = IF n >= BanAt THEN bannedA \cup {a} ELSE bannedA
+  /\ IF n >= BanAt /\ "BanLosesSlot" \in Deviations
+       THEN asking' = asking                    \* as the code was: ban, and NO replacement request
+       ELSE asking' = asking + 1                \* go cm.NewConnReq()
+  /\ UNCHANGED <<waiting, gfails, drought, ndrought>>
 
 DialFail(r) ==
   /\ r \in Dom(inflight) /\ nfail < MaxFails
@@ -65,10 +99,14 @@ Disconnect(r) ==
   /\ Failed(conns[r], inflight)
   /\ UNCHANGED <<nfail, started>>
 
-CmNext == Start \/ \E r \in 1 .. (Target + MaxFails + MaxDisc + 2) : DialOK(r) \/ DialFail(r) \/ Disconnect(r)
-CmSpec == CmInit /\ [][CmNext]_cmvars /\ WF_cmvars(Start) /\ WF_cmvars(\E r \in 1 .. (Target + MaxFails + MaxDisc + 2) : DialOK(r))
+Reqs == 1 .. (Target + MaxFails + MaxDisc + 2)
+CmNext == \/ Start \/ GetAddr \/ NoAddr \/ TimerFires \/ DroughtBegins \/ DroughtEnds
+          \/ \E r \in Reqs : DialOK(r) \/ DialFail(r) \/ Disconnect(r)
+\* fairness: the manager runs, timers fire, a drought ends, dials that can succeed do
+CmSpec == CmInit /\ [][CmNext]_cmvars /\ WF_cmvars(Start) /\ WF_cmvars(GetAddr) /\ WF_cmvars(TimerFires) /\ WF_cmvars(DroughtEnds)
+                 /\ WF_cmvars(\E r \in Reqs : DialOK(r))
 
-Live == Cardinality(Dom(inflight)) + Cardinality(Dom(conns))
+Live == asking + waiting + Cardinality(Dom(inflight)) + Cardinality(Dom(conns))
 OpenAtMostTarget == Cardinality(Dom(conns)) <= Target
 LiveAtMostTarget == Live <= Target
 NoDialToBanned   == \A r \in Dom(inflight) : inflight[r] \notin bannedA \/ fails[inflight[r]] >= BanAt
